@@ -1619,7 +1619,7 @@ func (_neg) exec(vm *vm) {
 			result = -n
 		}
 	default:
-		f := operand.ToFloat()
+		f := n.ToFloat() // not operand: an object would be converted (valueOf called) a second time
 		if !math.IsNaN(f) {
 			f = -f
 		}
